@@ -482,7 +482,10 @@ META = {
         "real code runs on symbolic samples is recorded and z3 decides divisor != 0 for all sample values (flat segments "
         "included); on the real torch the gradient itself is computed with autograd. forward() hands backward() the state the "
         "step started from, for input states of any norm: krylov_exp is a stub honouring its documented contract (arbitrary "
-        "result, argument overwritten - the real one normalises it in place), the real krylov_exp runs on the real torch."
+        "result, argument overwritten - the real one normalises it in place), the real krylov_exp runs on the real torch. With "
+        "the same stub: forward does not modify its input state tensor while gradients are tracked and backward does not modify "
+        "the incoming gradient tensor (both belong to the autograd graph); backward returns exact zeros, without raising, for a "
+        "zero incoming gradient (Krylov routines as stubs that refuse the zero vector)."
     ),
     "outside": [
         "N > 3 (N > 4 thorough); batch sizes other than 2",
